@@ -103,6 +103,9 @@ impl<C: Config> Engine<C> {
             .read_owned()
             .await;
 
+        #[cfg(qbice_verif)]
+        crate::verif::point("tracked_after_lock");
+
         let timestamp = Timestamp(
             self.computation_graph
                 .database
@@ -139,6 +142,9 @@ impl<C: Config> Engine<C> {
             .insert((), Timestamp(new_timestamp), &mut write_buffer)
             .await;
 
+        #[cfg(qbice_verif)]
+        crate::verif::point("session_after_bump");
+
         let guard = self
             .computation_graph
             .database
@@ -147,6 +153,9 @@ impl<C: Config> Engine<C> {
             .clone()
             .write_owned()
             .await;
+
+        #[cfg(qbice_verif)]
+        crate::verif::point("session_after_lock");
 
         (write_buffer, ActiveInputSessionGuard(Arc::new(guard)))
     }
